@@ -7,6 +7,7 @@
 (* a fixed function of its id and the entities its variables are bound to (false if one of them is null) - the  *)
 (* rewrites move clauses and turn patterns around but never change a condition, so any such function will do.    *)
 (*   graph   [n, kinds (per node: sequence of kind numbers), edges (sequence of [s, t, k])]                      *)
+(*   query   [parts: sequence of [clauses, carry, drop], hidden]; a part's WITH hands variables on ([f, t] pairs)  *)
 (*   clause  [t: "match" | "optional", pats, atoms]                                                              *)
 (*   pat     [pv: path variable or "", rev: reversed by the optimiser, els: node, rel, node, ...]                *)
 (*   node    [t: "node", v, kinds (all of them required)]                                                        *)
@@ -79,7 +80,16 @@ Eval(g, clauses, k, rows) ==
    ELSE LET cl == clauses[k] IN
         Eval(g, clauses, k + 1, UNION {LET ext == Extensions(g, cl, r) IN
                                        IF ext = {} /\ cl.t = "optional" THEN {WithNulls(r, ClauseVars(cl))} ELSE ext : r \in rows})
-Rows(g, q) == Eval(g, q.clauses, 1, {<<>>})
+\* a WITH that only hands variables on: the carried variables take their new names, everything else stays in the row under
+\* a made-up name (so that the set of rows is still the bag of matches); [f, t] = from, to
+Renamed(row, part) == LET pairs == Range(part.carry) \cup Range(part.drop) IN
+                      [v \in {p.t : p \in {x \in pairs : x.f \in DOMAIN row}} |-> row[(CHOOSE p \in pairs : p.t = v /\ p.f \in DOMAIN row).f]]
+RECURSIVE EvalParts(_, _, _, _)
+EvalParts(g, parts, k, rows) ==
+   IF k > Len(parts) THEN rows
+   ELSE LET after == Eval(g, parts[k].clauses, 1, rows) IN
+        EvalParts(g, parts, k + 1, IF k = Len(parts) THEN after ELSE {Renamed(r, parts[k]) : r \in after})
+Rows(g, q) == EvalParts(g, q.parts, 1, {<<>>})
 \* the bag of results over the variables the query text names
 Named(q, row) == [v \in DOMAIN row \ Range(q.hidden) |-> row[v]]
 Results(g, q) == LET rows == Rows(g, q) IN [p \in {Named(q, r) : r \in rows} |-> Cardinality({r \in rows : Named(q, r) = p})]
